@@ -10,11 +10,15 @@ double EDGE_RADS[16];
 bool worldReady = false;
 const double PI = 3.14159265358979323846;
 
+// Buffer capacities below come from closed forms (3k(k+1)+1 cells in a disk, at most 7^n children), not from the
+// tree under test: a tree whose own size functions are wrong must not be able to corrupt the generator's memory.
 std::vector<H3Index> refDisk(H3Index c, int k) {
     std::vector<H3Index> out;
+    if (k < 0 || k > 250) return out;
+    int64_t cap = 3 * (int64_t)k * (k + 1) + 1;
     int64_t sz = 0;
     if (REF.maxGridDiskSize(k, &sz) != E_SUCCESS || sz > 200000) return out;
-    std::vector<H3Index> buf((size_t)sz, 0);
+    std::vector<H3Index> buf((size_t)std::max(cap, sz) + 16, 0);
     if (REF.gridDisk(c, k, buf.data()) != E_SUCCESS) return out;
     for (auto h : buf)
         if (h) out.push_back(h);
@@ -22,11 +26,17 @@ std::vector<H3Index> refDisk(H3Index c, int k) {
 }
 std::vector<H3Index> refChildren(H3Index p, int res) {
     std::vector<H3Index> out;
+    int n = res - (int)((p >> 52) & 0xF);
+    if (n < 0 || n > 6) return out;  // 7^6 = 117649
+    int64_t cap = 1;
+    for (int i = 0; i < n; i++) cap *= 7;
     int64_t sz = 0;
     if (REF.cellToChildrenSize(p, res, &sz) != E_SUCCESS || sz > 200000)
         return out;
-    out.assign((size_t)sz, 0);
-    REF.cellToChildren(p, res, out.data());
+    std::vector<H3Index> buf((size_t)std::max(cap, sz) + 16, 0);
+    REF.cellToChildren(p, res, buf.data());
+    for (auto h : buf)
+        if (h) out.push_back(h);
     return out;
 }
 double wrapLng(double lng) {
@@ -152,8 +162,7 @@ Op Gen::compactOp() {
         int res = (int)r.range(1, 15);
         int k = (int)r.range(1, 6);
         H3Index origin = r.chance(0.7) ? nearPentagon(res, k) : pentagon(res);
-        int64_t sz = 0;
-        REF.maxGridDiskSize(k, &sz);
+        int64_t sz = 3 * (int64_t)k * (k + 1) + 1;  // closed form: never sized by the tree under test
         std::vector<H3Index> raw((size_t)sz, 0);
         REF.gridDisk(origin, k, raw.data());
         if (r.chance(0.4)) {  // zeros first: rotate so that a zero leads
@@ -824,7 +833,7 @@ std::vector<H3Index> Gen::cellSet(int maxCells, std::string &tag) {
             for (int i = 0; i < steps; i++) b = neighborOf(b);
             int64_t sz = 0;
             if (REF.gridPathCellsSize(cur, b, &sz) == E_SUCCESS && sz > 0 && sz < 4000) {
-                std::vector<H3Index> path((size_t)sz, 0);
+                std::vector<H3Index> path((size_t)sz + 64, 0);
                 if (REF.gridPathCells(cur, b, path.data()) == E_SUCCESS)
                     for (auto x : path)
                         if (x) acc.insert(x);
